@@ -672,10 +672,18 @@ impl StreamingConfig {
     /// Returns an estimate of memory usage in bytes based on buffer sizes
     /// and connection limits. Useful for capacity planning.
     pub fn estimated_memory_usage(&self) -> usize {
-        let buffer_memory = self.stream_buffer_size * self.max_connections_per_host;
-        let connection_overhead = self.connection_pool.max_total_connections * 8192; // Estimated per-connection overhead
-        let path_cache_overhead = self.cdn.servers.len() * 256; // Estimated per-server path cache
-        buffer_memory + connection_overhead + path_cache_overhead
+        // Saturating: the fields are public and validate() puts no upper bound on them
+        let buffer_memory = self
+            .stream_buffer_size
+            .saturating_mul(self.max_connections_per_host);
+        let connection_overhead = self
+            .connection_pool
+            .max_total_connections
+            .saturating_mul(8192); // Estimated per-connection overhead
+        let path_cache_overhead = self.cdn.servers.len().saturating_mul(256); // Estimated per-server path cache
+        buffer_memory
+            .saturating_add(connection_overhead)
+            .saturating_add(path_cache_overhead)
     }
 }
 
